@@ -36,6 +36,7 @@ typedef struct Grid_s * Grid;
 #endif
 typedef long foo_t; //only_for_context opencl
 typedef int bar_t; //only_for_context cuda cpu_serial
+typedef short pad_t; // padding of the work-group //only_for_context opencl cuda
 //include_file inc_gpu.h for_context opencl cuda
 //include_file inc_cpu.h for_context cpu_serial cpu_openmp
 //include_file inc_all.h for_context cpu_serial cpu_openmp opencl cuda
@@ -155,6 +156,8 @@ def s1(cx):
             cx.check(plain in lines, f, construct=f"[{tgt}] plain line `{plain.strip()}`", detail="unannotated text passes through unchanged", bad_detail="an unannotated line was altered or dropped", sub="S7")
         # ---- S6 only_for_context
         for line, ctxs in (("typedef long foo_t; //only_for_context opencl", ["opencl"]), ("typedef int bar_t; //only_for_context cuda cpu_serial", ["cuda", "cpu_serial"]),
+                           # (an ordinary comment in front of the annotation: the annotation is found wherever it stands on the line)
+                           ("typedef short pad_t; // padding of the work-group //only_for_context opencl cuda", ["opencl", "cuda"]),
                            ("typedef long inc_foo_t; //only_for_context opencl", ["opencl"]), ("typedef int inc_bar_t; //only_for_context cuda cpu_openmp", ["cuda", "cpu_openmp"])):
             active = line in lines
             commented = ("//" + line) in lines
